@@ -208,3 +208,34 @@ func Harness_C13_topic_names() {
 	}
 	verifReach("end")
 }
+
+// {leave} from a session that IS attached (to its 'me', its 'fnd' and a group topic): the request is either
+// answered by the session itself or handed to the topic, and the session keeps an in-flight slot exactly for a
+// request it handed over - a slot leaked by a request the session answered itself would block the session's
+// next {sub}/{leave} for ever (no reply to anything that follows).
+func Harness_C13_dispatch_leave_attached() {
+	verifNewStore()
+	verifInitGlobals()
+	store.Devices = verifDevices{}
+	verifInstallStoreObj(&verifAuthOutcome{err: types.ErrFailed})
+	s := verifNewDispatchSession("sid-1")
+	s.ver, s.uid, s.authLvl = minSupportedVersionValue, 5, auth.LevelAuth
+	mk := func(name string) *Topic {
+		t := &Topic{name: name, clientMsg: make(chan *ClientComMessage, 8), meta: make(chan *ClientComMessage, 8),
+			unreg: make(chan *ClientComMessage, 8), supd: make(chan *sessionUpdate, 8)}
+		s.subs[name] = &Subscription{broadcast: t.clientMsg, done: t.unreg, meta: t.meta, supd: t.supd}
+		return t
+	}
+	topics := []*Topic{mk(s.uid.UserId()), mk(s.uid.FndName()), mk("grpAAAAAAAAAAB")}
+	addressed := []string{"me", "fnd", "grpAAAAAAAAAAB"}[verifChoose("topic", 3)]
+	msg := &ClientComMessage{Leave: &MsgClientLeave{Id: "r1", Topic: addressed, Unsub: verifNondetBool("unsub")}}
+	s.dispatch(msg)
+	forwarded := 0
+	for _, t := range topics {
+		forwarded += len(t.unreg)
+	}
+	replies := verifDrainSend(s)
+	verifAssert(len(replies)+forwarded >= 1, "request-answered-or-handed-to-the-topic")
+	verifAssert(len(s.inflightReqs.sem) == forwarded, "in-flight-slot-kept-exactly-for-requests-handed-over")
+	verifReach("end")
+}
